@@ -173,6 +173,17 @@ Section Weights.
     do tbl <- calc_groups k_sidx_init groups tbl0;
     mapM (mapM read_entry) tbl.
 
+  (* a long-lived service: the constructor captures the source weights (one array per
+     hypothesis group); change_shg_mgr re-creates them from the manager's current sources
+     (kernels k_init_weights, k_chg_weights pin the two statements); calculate multiplies
+     the captured arrays with the yields returned for the current sources *)
+  Definition svc_change (captured current : list (list T)) : list (list T) := current.
+  Definition svc_weights (W0 : list (list T)) (changes : list (list (list T))) : list (list T) :=
+    fold_left svc_change changes W0.
+  Definition a_jk_after (n_datasets : nat) (W0 : list (list T)) (changes : list (list (list T)))
+             (Ycols : list (list (list T))) : res (list (list T)) :=
+    a_jk_calc n_datasets (combine (svc_weights W0 changes) Ycols).
+
   (* ------------------------------------------------------------------ *)
   (* SourceWeightedPDFRatio.get_ratio with the index plumbing of this file *)
   Definition src_of_val (v : nat * nat * T) : nat := fst (fst v).
